@@ -204,3 +204,49 @@ def t_asset_tags(world):
 _t16d = tasks
 def tasks(tier):
     return _t16d(tier) + [('asset_tags', t_asset_tags)]
+
+
+# ---------------------------------------------------------------- C16.e: an account can be closed only when it is empty and under nobody's control
+def t_can_be_closed(world):
+    import z3
+    eng = world.engine(merge=True)
+    f = world.fn(r'marginfi_account\.rs[^>]*>::can_be_closed$')
+    a = eng.ex.fresh(f.params[0][1], 'acct')
+    res = eng.run_fn(f, [a])
+    ob = Ob('C16.e.can_be_closed', 'can_be_closed == (not disabled, not in a flash loan, not in receivership, and every one of the 16 slots holds < 1 share on both sides)',
+            [f.name], '16 slots unrolled (closure executed from its MIR), state-merged; all flag words; all share values'); ob.paths = len(res)
+    BAL = STRUCTS['Balance']; li = STRUCTS['MarginfiAccount'].index('lending_account'); bi = STRUCTS['LendingAccount'].index('balances')
+    ash = [z3.Int(f'acct*.{li}.{bi}[{i}].{BAL.index("asset_shares")}') for i in range(16)]
+    lsh = [z3.Int(f'acct*.{li}.{bi}[{i}].{BAL.index("liability_shares")}') for i in range(16)]
+    flags = fsym('acct*', 'MarginfiAccount', 'account_flags')
+    bit = lambda k: (flags / k) % 2 == 1
+    empty = z3.And([z3.And(ash[i] < EMPTY, lsh[i] < EMPTY) for i in range(16)])
+    ref = z3.And(z3.Not(bit(1)), z3.Not(bit(2)), z3.Not(bit(16)), empty)
+    sane = z3.And([z3.Or(ash[i] < EMPTY, lsh[i] < EMPTY) for i in range(16)])      # a slot with >= 1 share on both sides trips get_side's assertion (panic: fail closed)
+    nret = 0
+    for r in returned(res):
+        nret += 1
+        if ob.witness(eng, r, [sane]) is False: continue
+        ob.prove(eng, r, [sane], r['ret'].e == ref, 'equals the reference predicate', role='closable')
+    if nret == 0: ob.fail('no returning path')
+    ob.need_witness()
+    # the handler: frozen accounts refused, can_be_closed required
+    from specs.handlers import run_handler, KERNELS
+    eng2, f2, args2, res2 = run_handler(world, r'close::close_account$', extra_opaque=[r'can_be_closed$'])
+    ob2 = Ob('C16.e.close_account', 'close_account: Ok => the account is not frozen and can_be_closed() returned true', [f2.name], 'handler mode; every accepting path'); ob2.paths = len(res2)
+    for r, okc in ok_paths(res2):
+        if ob2.witness(eng2, r, [okc]) is False: continue
+        cs = [e for e in flat_events(r['events']) if e[0] == 'call' and re.search(r'can_be_closed$', e[1])]
+        if len(cs) != 1: ob2.structural(f'{len(cs)} can_be_closed calls on an accepting path', 'closable-check'); continue
+        ob2.prove(eng2, r, [okc], ev(cs[0][3]), 'can_be_closed() was true', role='closable-check')
+        loads = [e for e in flat_events(r['events']) if e[0] == 'call' and 'AccountLoader' in e[1] and 'MarginfiAccount' in e[1]]
+        if not loads: ob2.fail('no account load'); continue
+        fl = z3.Int(f'{loads[0][2][0]}.acct.{STRUCTS["MarginfiAccount"].index("account_flags")}')
+        ob2.prove(eng2, r, [okc], (fl / 64) % 2 == 0, 'frozen accounts cannot be closed by their authority', role='close-frozen')
+    ob2.need_witness()
+    return [ob, ob2]
+
+
+_t16e = tasks
+def tasks(tier):
+    return _t16e(tier) + [('can_be_closed', t_can_be_closed)]
